@@ -967,6 +967,10 @@ where
 
         let (topic_name, consumed) = MqttString::decode(&data_arc[cursor..])?;
         cursor += consumed;
+        if topic_name.as_str().contains('#') || topic_name.as_str().contains('+') {
+            // wildcard characters are not allowed in a Topic Name ([MQTT-3.3.2-2])
+            return Err(MqttError::MalformedPacket);
+        }
 
         let qos = match qos_value {
             0 => Qos::AtMostOnce,
